@@ -22,7 +22,8 @@ ASSUMPTIONS = [
     "the generator's private coefficient arrays (_a_coeffs, _b_coeffs, _scaling) are read to "
     "evaluate its state analytically; a sampled-output PSD cross-check backs this on a few cases",
 ]
-DECIDING_COUNTERS = ["filters_checked", "white_checked", "fft_syntheses", "band_cases",
+DECIDING_COUNTERS = ["filters_checked", "variation_histories", "white_checked", "fft_syntheses",
+                     "band_cases",
                      "sampled_psd_checks"]
 MIN_NONTRIVIAL = {"quick": 500, "thorough": 10000}
 JOBS = {"quick": 8, "thorough": 16}
@@ -48,8 +49,29 @@ def filter_case(rec, seedt):
     ratio = gen.loguniform(rng, 4, 1e6)
     fmin = fmax / ratio
     pink = bool(rng.random() < 0.15)
+    prev = getattr(filter_case, "prev", None)
+    vary = None
+    if prev is not None and seedt[-1] % 3 == 2:
+        # call history: the previous generator's parameters with ONE of them changed - anything
+        # the class remembers about an earlier design under an incomplete key is exposed
+        vary = str(rng.choice(["fs", "fs", "alpha", "fmin", "fmax"]))
+        a0, fs0, fmin0, fmax0, pink0 = prev
+        alpha, fs, fmin, fmax, pink = a0, fs0, fmin0, fmax0, pink0
+        if vary == "fs":
+            fs = fs0 * float(rng.choice([2.0, 10.0, 3.7, 100.0]))      # fmax <= fs/2 stays true
+        elif vary == "alpha" and not pink0:
+            alpha = float(rng.choice([0.01, 0.5, 1.0, 1.5, 2.0]))
+        elif vary == "fmin":
+            fmin = fmin0 * float(rng.choice([0.5, 0.1, 0.9]))
+        else:
+            fmax = fmax0 * float(rng.choice([0.5, 0.25]))
+            if fmax / fmin < 4:
+                fmin = fmax / 8
+    filter_case.prev = (alpha, fs, fmin, fmax, pink)
     desc = {"kind": "filter", "seed": list(seedt), "alpha": 1.0 if pink else alpha, "fs": fs,
-            "fmin": fmin, "fmax": fmax, "pink": pink}
+            "fmin": fmin, "fmax": fmax, "pink": pink, "varied": vary}
+    if vary:
+        rec.count("variation_histories")
     rec.case(desc, nontrivial=True)
     try:
         g = noise.pink_noise(fs, fmin, fmax, init_filter=False, seed=1) if pink else \
@@ -250,5 +272,11 @@ def run_shard(params, rec):
 
 
 def replay(case, rec):
+    if case.get("kind") == "filter" and case.get("varied"):
+        # reproduce the history: the case it was derived from runs first
+        st = list(case["seed"])
+        st[-1] -= 1
+        filter_case.prev = None
+        filter_case(rec, st)
     {"filter": filter_case, "sampled": sampled_case, "white": white_case, "fft": fft_case,
      "band": band_case}[case["kind"]](rec, case["seed"])
